@@ -13,6 +13,7 @@
 //                                     {"k":"bar","i":B}              park until the conductor releases barrier B
 //                                     {"k":"us","n":N} {"k":"yield"}
 //   sink      : {"us": per-write delay}
+//   jitter    : k   (only with trace hooks: yield / short sleep inside the logger's critical sections)
 //   script    : conductor ops  {"k":"close"} {"k":"open"} {"k":"budget","n":N} (N writes pass a closed gate)
 //                              {"k":"release","i":B} {"k":"arrive","i":B} {"k":"join"} {"k":"blocked","ms":T}
 //                              {"k":"us","n":N} {"k":"mark"} {"k":"shutdown","open_after_us":N}
@@ -52,6 +53,10 @@ std::atomic<size_t> g_nev{0};
 std::atomic<bool> g_hooksSeen{false};
 thread_local int t_tid = -1;
 thread_local int t_seq = -1;
+// schedule widening: with "jitter":k in the scenario a trace point yields with probability 1/k and sleeps a few
+// microseconds with probability 1/(16k) while the logger's lock is held
+std::atomic<unsigned> g_jitter{0};
+thread_local unsigned long t_rng = 0;
 
 void pushEv(char tag, unsigned long a, unsigned long b, unsigned long c) {
   size_t i = g_nev.fetch_add(1, std::memory_order_relaxed);
@@ -61,6 +66,15 @@ void pushEv(char tag, unsigned long a, unsigned long b, unsigned long c) {
 
 extern "C" void oomd_verif_log_trace(const char* tag, unsigned long a, unsigned long b, unsigned long c) {
   g_hooksSeen.store(true, std::memory_order_relaxed);
+  unsigned jit = g_jitter.load(std::memory_order_relaxed);
+  if (jit) {
+    if (!t_rng) t_rng = 0x9e3779b97f4a7c15ul ^ ((unsigned long)(t_tid + 2) * 0xbf58476d1ce4e5b9ul) ^ jit;
+    t_rng ^= t_rng << 13;
+    t_rng ^= t_rng >> 7;
+    t_rng ^= t_rng << 17;
+    if (t_rng % jit == 0) std::this_thread::yield();
+    if ((t_rng >> 20) % (16ul * jit) == 0) std::this_thread::sleep_for(std::chrono::microseconds(1 + (t_rng >> 40) % 60));
+  }
   // enq / drop / swap / clear / release / xstop
   pushEv(tag[0], a, b, c);
 }
@@ -289,9 +303,10 @@ void runScenario(const Json::Value& sc, Json::Value& out) {
     return;
   }
   g_nev.store(0);
+  g_jitter.store(sc.get("jitter", 0).asUInt());
   std::string dir = vh::freshDir("log");
   std::string kpath = dir + "/kmsg";
-  int kfd = ::open(kpath.c_str(), O_WRONLY | O_CREAT | O_APPEND, 0644);
+  int kfd = ::open(kpath.c_str(), O_WRONLY | O_CREAT | O_TRUNC | O_APPEND, 0644);  // O_TRUNC: a crashed earlier process with the same pid may have left the file
   if (kfd < 0) die("cannot create kmsg file");
 
   auto* rp = new Run(np);
